@@ -225,6 +225,25 @@ int main(int argc, char **argv) {
             if (exc.empty()) vf::violation("C09|File::open ReadOnly|missing path|returned a File", "");
             if (exists(p)) vf::violation("C09|File::open ReadOnly|missing path|file was created", "");
             unlink(p.c_str());
+            // the Force flag bypasses the VERSION check (C10); a missing path stays refused and nothing is created
+            exc = vf::guarded([&] { File f = File::open(p, FileMode::ReadOnly, "hdf5", comp, OpenFlags::Force); });
+            vf::count("open_attempts");
+            if (exc.empty()) vf::violation("C09|File::open ReadOnly+Force|missing path|returned a File", "");
+            if (exists(p)) vf::violation("C09|File::open ReadOnly+Force|missing path|file was created", "");
+            unlink(p.c_str());
+            // a symbolic link whose target does not exist is a missing path too
+            std::string dangling = vf::scratch_file("dangling.lnk");
+            unlink(dangling.c_str());
+            if (symlink(p.c_str(), dangling.c_str()) == 0) {
+                for (int force = 0; force < 2; force++) {
+                    exc = vf::guarded([&] { File f = File::open(dangling, FileMode::ReadOnly, "hdf5", comp, force ? OpenFlags::Force : OpenFlags::None); });
+                    vf::count("open_attempts");
+                    if (exc.empty()) vf::violation(std::string("C09|File::open ReadOnly") + (force ? "+Force" : "") + "|dangling symbolic link|returned a File", "");
+                    if (exists(p)) vf::violation(std::string("C09|File::open ReadOnly") + (force ? "+Force" : "") + "|dangling symbolic link|target file was created", "");
+                    unlink(p.c_str());
+                }
+                unlink(dangling.c_str());
+            }
             exc = vf::guarded([&] {
                 File f = File::open(p, FileMode::ReadWrite, "hdf5", comp);
                 obs::Options o; o.created_at = false;
@@ -284,6 +303,17 @@ int main(int argc, char **argv) {
     std::vector<Defect> defects = {
         {"format attribute missing", [&](const std::string &p) { with_file(p, [](hid_t h) { H5Adelete(h, "format"); }); }},
         {"format attribute has another value", [&](const std::string &p) { with_file(p, [&](hid_t h) { set_str_attr(h, "format", "xin"); }); }},
+        {"format attribute has another value: 'nix' followed by more characters", [&](const std::string &p) { with_file(p, [&](hid_t h) { set_str_attr(h, "format", "nixx"); }); }},
+        {"format attribute has another value: 'nix' followed by more characters", [&](const std::string &p) { with_file(p, [&](hid_t h) { set_str_attr(h, "format", "nix2"); }); }},
+        {"format attribute has another value: 'nix' followed by more characters", [&](const std::string &p) { with_file(p, [&](hid_t h) { set_str_attr(h, "format", "nix-ng"); }); }},
+        {"format attribute has another value: 'nix' followed by a blank", [&](const std::string &p) { with_file(p, [&](hid_t h) { set_str_attr(h, "format", "nix "); }); }},
+        {"format attribute has another value: 'nix' preceded by more characters", [&](const std::string &p) { with_file(p, [&](hid_t h) { set_str_attr(h, "format", "unix"); }); }},
+        {"format attribute has another value: 'nix' preceded by more characters", [&](const std::string &p) { with_file(p, [&](hid_t h) { set_str_attr(h, "format", " nix"); }); }},
+        {"format attribute has another value: beginning of 'nix'", [&](const std::string &p) { with_file(p, [&](hid_t h) { set_str_attr(h, "format", "ni"); }); }},
+        {"format attribute has another value: beginning of 'nix'", [&](const std::string &p) { with_file(p, [&](hid_t h) { set_str_attr(h, "format", "n"); }); }},
+        {"format attribute has another value: empty string", [&](const std::string &p) { with_file(p, [&](hid_t h) { set_str_attr(h, "format", ""); }); }},
+        {"format attribute has another value: other letter case", [&](const std::string &p) { with_file(p, [&](hid_t h) { set_str_attr(h, "format", "NIX"); }); }},
+        {"format attribute has another value: other letter case", [&](const std::string &p) { with_file(p, [&](hid_t h) { set_str_attr(h, "format", "Nix"); }); }},
         {"format attribute is an integer", [&](const std::string &p) { with_file(p, [](hid_t h) { H5Adelete(h, "format"); int v = 7; hid_t s = H5Screate(H5S_SCALAR); hid_t a = H5Acreate2(h, "format", H5T_NATIVE_INT, s, H5P_DEFAULT, H5P_DEFAULT); H5Awrite(a, H5T_NATIVE_INT, &v); H5Aclose(a); H5Sclose(s); }); }},
         {"version attribute missing", [&](const std::string &p) { with_file(p, [](hid_t h) { H5Adelete(h, "version"); }); }},
         {"version attribute has two components", [&](const std::string &p) { with_file(p, [](hid_t h) { H5Adelete(h, "version"); int v[2] = {1, 2}; hsize_t d = 2; hid_t s = H5Screate_simple(1, &d, nullptr); hid_t a = H5Acreate2(h, "version", H5T_NATIVE_INT, s, H5P_DEFAULT, H5P_DEFAULT); H5Awrite(a, H5T_NATIVE_INT, v); H5Aclose(a); H5Sclose(s); }); }},
@@ -312,6 +342,14 @@ int main(int argc, char **argv) {
             vf::distinct("outcomes", std::string(defects[di].name) + "|" + mname + "|" + (opened ? "opened" : exc));
             if (opened) vf::violation("C09|File::open " + mname + "|" + defects[di].name + "|returned a File", std::string("seed ") + sn + (usable ? " (isOpen)" : ""));
             if (m == FileMode::ReadOnly && ops::slurp(p) != before) vf::violation("C09|File::open ReadOnly|" + std::string(defects[di].name) + "|bytes of the file changed", std::string("seed ") + sn);
+            if (m == FileMode::ReadOnly) {
+                // with Force the header check is bypassed (C10): whether the file opens is not asserted, but ReadOnly still writes nothing
+                bool fo = false;
+                std::string e2 = vf::guarded([&] { File f = File::open(p, m, "hdf5", comp, OpenFlags::Force); fo = true; vf::guarded([&] { f.createBlock("forced", "t"); }); vf::guarded([&] { f.createSection("forced", "t"); }); f.close(); });
+                vf::count("open_attempts");
+                vf::distinct("outcomes", std::string(defects[di].name) + "|ReadOnly+Force|" + (fo ? "opened" : e2));
+                if (ops::slurp(p) != before) vf::violation("C09|File::open ReadOnly+Force|" + std::string(defects[di].name) + "|bytes of the file changed", std::string("seed ") + sn);
+            }
         }
     }
     return vf::finish();
